@@ -304,27 +304,60 @@ func genScanPoolFacts(o *out, pkgs map[string]map[string]*ast.File) {
 			}
 		}
 	}
-	madeLocal := false
+	// the scratch tables gorm.Scan writes through for every row — `values` (column → holder) and `fields` (column →
+	// field) — are variables of the function initialised by make(…): nothing survives the call, nothing is shared
+	made := map[string]bool{}
 	if scanFn != nil {
 		ast.Inspect(scanFn.Body, func(n ast.Node) bool {
 			switch x := n.(type) {
 			case *ast.ValueSpec:
 				for i, nm := range x.Names {
-					if nm.Name == "values" && i < len(x.Values) && strings.HasPrefix(src(x.Values[i]), "make([]interface{}") {
-						madeLocal = true
+					if i < len(x.Values) && strings.HasPrefix(src(x.Values[i]), "make(") {
+						made[nm.Name] = true
 					}
 				}
 			case *ast.AssignStmt:
 				if x.Tok == token.DEFINE {
 					for i, l := range x.Lhs {
-						if src(l) == "values" && i < len(x.Rhs) && strings.HasPrefix(src(x.Rhs[i]), "make([]interface{}") {
-							madeLocal = true
+						if i < len(x.Rhs) && strings.HasPrefix(src(x.Rhs[i]), "make(") {
+							made[src(l)] = true
 						}
 					}
 				}
 			}
 			return true
 		})
+	}
+	madeLocal := made["values"]
+	fieldsLocal := made["fields"]
+	// … and scanIntoStruct receives exactly those two
+	if sis != nil && sis.Type.Params != nil {
+		names := []string{}
+		for _, f := range sis.Type.Params.List {
+			for _, n := range f.Names {
+				names = append(names, n.Name)
+			}
+		}
+		pos := map[string]int{}
+		for i, n := range names {
+			pos[n] = i
+		}
+		for _, f := range pkgs["."] {
+			ast.Inspect(f, func(n ast.Node) bool {
+				call, ok := n.(*ast.CallExpr)
+				if !ok {
+					return true
+				}
+				if sel, ok := call.Fun.(*ast.SelectorExpr); ok && sel.Sel.Name == "scanIntoStruct" {
+					if i, ok := pos["fields"]; !ok || i >= len(call.Args) || src(call.Args[i]) != "fields" {
+						fieldsLocal = false
+					}
+				}
+				return true
+			})
+		}
+	} else {
+		fieldsLocal = false
 	}
 	valuesLocal = valuesLocal && madeLocal && sites > 0
 
@@ -368,6 +401,33 @@ func genScanPoolFacts(o *out, pkgs map[string]map[string]*ast.File) {
 		})
 	}
 
+	// the map destinations: prepareValues builds every holder anew for each row (reflect.New(…).Interface() / new(T))
+	pvFound, pvFresh := false, true
+	for _, f := range pkgs["."] {
+		for _, d := range f.Decls {
+			fd, ok := d.(*ast.FuncDecl)
+			if !ok || fd.Body == nil || fd.Name.Name != "prepareValues" {
+				continue
+			}
+			ast.Inspect(fd.Body, func(n ast.Node) bool {
+				as, ok := n.(*ast.AssignStmt)
+				if !ok {
+					return true
+				}
+				for i, l := range as.Lhs {
+					if ix, ok := l.(*ast.IndexExpr); ok && src(ix.X) == "values" && i < len(as.Rhs) {
+						pvFound = true
+						if !c15bFreshExpr(as.Rhs[i], &ast.FuncLit{Body: fd.Body}) {
+							pvFresh = false
+						}
+					}
+				}
+				return true
+			})
+		}
+	}
+	pvFresh = pvFresh && pvFound
+
 	var b strings.Builder
 	b.WriteString("/-- scan.go has a function scanIntoStruct -/\n")
 	b.WriteString("def scanIntoStructFound : Bool := " + lbool(found) + "\n\n")
@@ -390,6 +450,10 @@ func genScanPoolFacts(o *out, pkgs map[string]map[string]*ast.File) {
 	b.WriteString(fmt.Sprintf("def scanIntoStructCallSites : Nat := %d\n\n", sites))
 	b.WriteString("/-- every caller is gorm.Scan passing the `values` slice it allocates per call (`values = make([]interface{}, …)`, a local variable) -/\n")
 	b.WriteString("def scanIntoStructValuesLocal : Bool := " + lbool(valuesLocal) + "\n\n")
+	b.WriteString("/-- … and the column → field table `fields` is likewise made by gorm.Scan for this call and passed on unchanged -/\n")
+	b.WriteString("def scanIntoStructFieldsLocal : Bool := " + lbool(fieldsLocal) + "\n\n")
+	b.WriteString("/-- scan.go prepareValues (map destinations) assigns every `values[idx]` a holder allocated on the spot -/\n")
+	b.WriteString("def prepareValuesFresh : Bool := " + lbool(pvFresh) + "\n\n")
 	b.WriteString("/-- `sync.Pool{New: func…}` literals of package schema -/\n")
 	b.WriteString(fmt.Sprintf("def scanPoolNewSites : Nat := %d\n\n", newSites))
 	b.WriteString("/-- each of them returns a fresh allocation (reflect.New(…).Interface(), &T{…}, new(T)) built inside the function -/\n")
